@@ -82,6 +82,10 @@ const FILES: &[&str] = &[
     "/app/issue#12/what?.js",
     "/app/src/gen\\util.js",
     "file:///app/src/m.mjs",
+    // the other path style (a Windows host hands such names to the wasm build)
+    "C:\\app\\dist\\index.js",
+    "src\\win\\rel.js",
+    "C:\\app/mixed\\style.js",
 ];
 
 fn dir_of(f: &str) -> String {
